@@ -30,12 +30,15 @@ within the capture timeout; after a drain every committed job ran and no row is 
 past execute_at+pickup and uncaptured/captured longer than the timeout ago and nothing captured more recently;
 has_scheduled_jobs(key, processing) == a row with that key the caller can see is (not) captured.
 
-FINDING on the unchanged tree (signature pending-query:reports-in-memory-job-without-matching-row): DefaultScheduler.
-has_scheduled_jobs answers True from its in-memory copy of a job whose scheduling transaction rolled back (also: whose
-row was meanwhile captured or finished by another scheduler). Model: qmem flag of cfg, generated into Gen/SchedQuery.v
-from the source by translate/tr_schedquery.py; theorems C13_pending_query_refuted / _current_code.
+FIXED finding F8 (repo commit 75ec1054; signature pending-query:reports-in-memory-job-without-matching-row): DefaultScheduler.
+has_scheduled_jobs used to answer True from its in-memory copy of a job whose scheduling transaction rolled back (also:
+whose row was meanwhile captured or finished by another scheduler). Model: qmem flag of cfg, generated into
+Gen/SchedQuery.v from the source by translate/tr_schedquery.py (now false); C13_pending_query_exact is unconditional for
+the generated flag and stops compiling if the shortcut returns; the old witness stays in the corpus
+(regression-F8-rollback-leaves-in-memory-copy) and must be clean; reverting 75ec1054 in a scratch worktree gives
+obligation theorem:C13_pending_query_exact broken + VIOLATION with that witness as replay.
 
-Self-test (scratch worktree of /repo + the candidate fix for the finding so the baseline is green; VERIF_REPO=... ./check C13):
+Self-test (scratch worktree of /repo, at the time with the candidate fix = 75ec1054 applied; VERIF_REPO=... ./check C13):
   m1  _capture_scheduled_job without query_filter            -> VIOLATION captured-although-taken-by-another-process (+930 disagreements)
   m2  get_scheduled_jobs_to_start: min_captured_at = now      -> VIOLATION recapture-within-timeout, early-or-recapture:store-query, ...
   m3  _dispatcher pops half a second early (delay - 0.5, >= 1) -> VIOLATION early
@@ -46,7 +49,7 @@ Self-test (scratch worktree of /repo + the candidate fix for the finding so the 
   m8  _process_memory_job goes on after a failed capture     -> VIOLATION ran-twice, ran-rolled-back
   m9  capture always expects captured_at NULL                 -> VIOLATION poll-selected-but-not-captured, never-ran, rows-left-after-drain
   m13 has_scheduled_jobs eq/neq swapped                       -> VIOLATION pending-query:misses-job, pending-query:reports-nonexistent-job
-  m3 on the unpatched tree                                    -> two VIOLATION lines (the finding + early)
+  m3 on the then unpatched tree                               -> two VIOLATION lines (F8 + early)
 Missed before the harness was strengthened: m7 (needed the injected foreign write), m4 (threads stopped at an
 unexpected gate were not tracked), m1 as ran-twice (a failed delete did not count as "finished").
 """
@@ -68,7 +71,7 @@ MANIFEST = {
                   'deletes within the capture timeout and nobody dies between invoke and delete (and a witness that the hypothesis '
                   'is needed); eligibility after execute_at+pickup / captured_at+timeout and "an undisturbed poll of an idle '
                   'instance invokes exactly what it selected" in every reachable state, hence crash recovery; pending query '
-                  'complete, exact when not answered from memory, refuted otherwise; legacy: not early, committed only, at most '
+                  'exact for the code as translated (flag generated from the source; regression statement for the old in-memory shortcut); legacy: not early, committed only, at most '
                   'once unconditionally, crash recovery refuted (stuck for ever). Models tied to the code by differential runs of '
                   'the real DefaultScheduler/LegacyScheduler methods under a virtual clock (thousands of step lists incl. crashes '
                   'between any two steps, recaptures, failed deletes, batch limits, injected foreign writes) and of the real '
@@ -1459,7 +1462,7 @@ def run_program(cfgv, prefix, order):
 # ---- corpus: minimised interesting cases, run first -------------------------------------------------------
 
 CORPUS = [
-    {'name': 'rollback-leaves-in-memory-copy', 'kind': 'default', 'cfg': (60, 30, None), 'ops': [
+    {'name': 'regression-F8-rollback-leaves-in-memory-copy', 'kind': 'default', 'cfg': (60, 30, None), 'ops': [
         ('persist', 0, 5, 1, 'tx'), ('rollback',), ('query', 0, 1, False), ('tick', 5), ('dispatch', 0), ('mstart', 0),
         ('query', 0, 1, False), ('tick', 100), ('pselect', 1)]},
     {'name': 'memory-path-runs-once', 'kind': 'default', 'cfg': (60, 30, None), 'ops': [
